@@ -1,8 +1,10 @@
 package mon
 
 import (
+	"bytes"
 	"fmt"
 	"os"
+	"os/exec"
 	"regexp"
 	"sort"
 	"strings"
@@ -89,6 +91,9 @@ func Progs(rc *vk.Rec) {
 		opts.MaxScens = 3
 	case "c05":
 		progsC05(rc, env)
+		return
+	case "c20":
+		progsC20(rc, env)
 		return
 	default:
 		rc.Inconclusive("PROGS: unknown mode " + mode)
@@ -498,4 +503,113 @@ func progsC05(rc *vk.Rec, env *wprog.Env) {
 		}
 	}
 	os.RemoveAll(env.Scratch)
+}
+
+// progsC20 is the generated-program leg of C20: every family/variant alone and
+// seeded mixes of 1-3 scenarios (coroutines, several I/O arguments, iterate,
+// choose, statuses, const tables ...) are compiled by the real wuffs-c in
+// repeated fresh processes (new map seeds each time) under varied GOMAXPROCS /
+// GOGC; the emitted C must be byte-identical every time.
+func progsC20(rc *vk.Rec, env *wprog.Env) {
+	const phase = "progs-c20"
+	nTotal := rc.N(96, 4000)
+	reps := 10
+	if rc.Thorough() {
+		reps = 24
+	}
+	type item struct{ o wprog.GenOptions }
+	var enum []item
+	fams := wprog.Families()
+	var fnames []string
+	for f := range fams {
+		if f != "M-kill" {
+			fnames = append(fnames, f)
+		}
+	}
+	sort.Strings(fnames)
+	for _, f := range fnames {
+		for v := 0; v < fams[f]; v++ {
+			enum = append(enum, item{wprog.GenOptions{Family: f, Variant: v, MaxScens: 1, MaxCalls: 1}})
+		}
+	}
+	for v := 0; v < wprog.KillVariants(); v += 7 {
+		enum = append(enum, item{wprog.GenOptions{Family: "M-kill", Variant: v, MaxScens: 1, MaxCalls: 1}})
+	}
+	os.MkdirAll(env.Scratch, 0o755)
+	for idx := int64(0); idx < int64(nTotal+len(enum)); idx++ {
+		if rc.SkipCase(phase, idx) {
+			continue
+		}
+		o := wprog.GenOptions{Variant: -1, MaxScens: 3, MaxCalls: 1}
+		if idx >= int64(nTotal) {
+			k := int(idx - int64(nTotal))
+			if rc.Only < 0 && k%rc.NShards != rc.Shard {
+				continue
+			}
+			o = enum[k].o
+		}
+		rc.Mark(phase, idx)
+		r := rc.RNG(phase, idx)
+		c := wprog.GenCase(r, o)
+		if c == nil {
+			continue
+		}
+		file := fmt.Sprintf("%s/d%d.wuffs", env.Scratch, idx)
+		if err := os.WriteFile(file, []byte(c.Source), 0o644); err != nil {
+			continue
+		}
+		gen := func(extraEnv ...string) ([]byte, bool) {
+			cmd := exec.Command(env.WuffsC, "gen", "-package_name", "det", file)
+			cmd.Dir = env.Root
+			cmd.Env = append(os.Environ(), extraEnv...)
+			out, err := cmd.Output()
+			return out, err == nil
+		}
+		ref, ok := gen()
+		if !ok {
+			rc.Count("rejected_or_failed", 1)
+			os.Remove(file)
+			continue
+		}
+		rc.Eval(1)
+		for k := 0; k < reps; k++ {
+			var ev []string
+			switch k % 4 {
+			case 1:
+				ev = []string{"GOMAXPROCS=1"}
+			case 2:
+				ev = []string{"GOGC=1", "GOMAXPROCS=16"}
+			case 3:
+				ev = []string{"VERIF_UNRELATED=" + fmt.Sprint(k), "LANG=C", "TZ=Pacific/Kiritimati"}
+			}
+			out, ok := gen(ev...)
+			rc.Count("generated_program_compilations", 1)
+			if !ok || !bytes.Equal(out, ref) {
+				d := 0
+				for d < len(out) && d < len(ref) && out[d] == ref[d] {
+					d++
+				}
+				lo := d - 60
+				if lo < 0 {
+					lo = 0
+				}
+				rc.ViolateCase("nondeterministic:generated-program:"+c.ID, fmt.Sprintf("wuffs-c gen of [%s] differs between two runs on the same file (run %d, env %v): first difference at byte %d: %q vs %q", c.ID, k, ev, d, clip(ref, lo, d+60), clip(out, lo, d+60)),
+					phase, idx, map[string]interface{}{"source": c.Source})
+				break
+			}
+		}
+		rc.Class("det|" + c.ID)
+		os.Remove(file)
+	}
+	os.RemoveAll(env.Scratch)
+}
+
+func clip(b []byte, lo, hi int) string {
+	if lo > len(b) {
+		lo = len(b)
+	}
+	if hi > len(b) {
+		hi = len(b)
+	}
+	return string(b[lo:hi])
 }
